@@ -17,8 +17,8 @@
 (***************************************************************************)
 EXTENDS Naturals, Sequences, FiniteSets, TLC, Json
 
-CONSTANTS N, M, MI,             \* nodes 1..N, pointer-valued maps 1..M, interface-valued maps 1..MI
-          Slots,                \* node slots in use: subset of {"p","s1","s2","a","m","mi","i"}
+CONSTANTS N, M, MI, MM,         \* nodes 1..N, pointer-valued maps 1..M, interface-valued maps 1..MI, maps of maps 1..MM
+          Slots,                \* node slots in use: subset of {"p","s1","s2","a","m","mi","mm","i"}
           Fuel,
           SampleN,
           BUG_IfaceNoMemo,      \* pointers / maps held in an interface are copied without consulting the memo (pre-fix)
@@ -31,15 +31,18 @@ NodeRefs == {Nil} \cup {NodeRef(n) : n \in 1..N}
 IMapRef(k) == [t |-> "imap", v |-> k]
 MapRefs == {Nil} \cup {MapRef(k) : k \in 1..M}
 IMapRefs == {Nil} \cup {IMapRef(k) : k \in 1..MI}
+MMapRef(k) == [t |-> "mmap", v |-> k]      \* map[string]map[string]*GNode: map-typed references held as map values
+MMapRefs == {Nil} \cup {MMapRef(k) : k \in 1..MM}
 AnyRefs == NodeRefs \cup MapRefs \cup IMapRefs
 
-SlotRange(s) == CASE s \in {"p", "s1", "s2", "a"} -> NodeRefs [] s = "m" -> MapRefs [] s = "mi" -> IMapRefs [] s = "i" -> AnyRefs
-NodeVals == [Slots -> AnyRefs]
+SlotRange(s) == CASE s \in {"p", "s1", "s2", "a"} -> NodeRefs [] s = "m" -> MapRefs [] s = "mi" -> IMapRefs [] s = "mm" -> MMapRefs [] s = "i" -> AnyRefs
+NodeVals == [Slots -> AnyRefs \cup MMapRefs]
 GoodNode(nv) == \A s \in Slots : nv[s] \in SlotRange(s)
 
 \* maps[k] = the two *GNode stored under "v" and "w" in a map[string]*GNode ; imaps[k] = the value stored under "i" in a map[string]interface{}
-VARIABLES nodes, maps, imaps, res
-vars == <<nodes, maps, imaps, res>>
+\* mmaps[k] = the two map[string]*GNode stored under "a" and "b"
+VARIABLES nodes, maps, imaps, mmaps, res
+vars == <<nodes, maps, imaps, mmaps, res>>
 
 (* ------------------------------ the walk -------------------------------- *)
 \* state threaded through the walk:
@@ -47,10 +50,10 @@ vars == <<nodes, maps, imaps, res>>
 \*   ninst, minst : number of node / map instances created; norig[i], morig[i] : what instance i copies
 \*   edges : set of [fk, f, slot, t, tk] (from kind/instance, slot, to kind/instance) of the copy
 \*   fuel
-St0 == [pm |-> [n \in 1..N |-> 0], mm |-> [k \in 1..M |-> 0], im |-> [k \in 1..MI |-> 0],
-        norig |-> <<>>, morig |-> <<>>, iorig |-> <<>>, edges |-> {}, fuel |-> Fuel, ret |-> 0]
+St0 == [pm |-> [n \in 1..N |-> 0], mm |-> [k \in 1..M |-> 0], im |-> [k \in 1..MI |-> 0], xm |-> [k \in 1..MM |-> 0],
+        norig |-> <<>>, morig |-> <<>>, iorig |-> <<>>, xorig |-> <<>>, edges |-> {}, fuel |-> Fuel, ret |-> 0]
 
-RECURSIVE CopyRef(_, _, _), CopyNodeSlots(_, _, _, _), CopyNodeInto(_, _), CopyMapInto(_, _), CopyIMapInto(_, _)
+RECURSIVE CopyRef(_, _, _), CopyNodeSlots(_, _, _, _), CopyNodeInto(_, _), CopyMapInto(_, _), CopyIMapInto(_, _), CopyMMapInto(_, _)
 
 \* copies whatever ref points at; returns the state with .ret = instance id (0 for nil) -- kind is that of ref
 CopyRef(st, ref, viaIface) ==
@@ -64,11 +67,15 @@ CopyRef(st, ref, viaIface) ==
          IF st.mm[ref.v] # 0 /\ ~(viaIface /\ BUG_IfaceNoMemo)
          THEN [st EXCEPT !.ret = st.mm[ref.v]]
          ELSE CopyMapInto([st EXCEPT !.fuel = @ - 1], ref.v)
+  ELSE IF ref.t = "mmap" THEN
+         IF st.xm[ref.v] # 0
+         THEN [st EXCEPT !.ret = st.xm[ref.v]]
+         ELSE CopyMMapInto([st EXCEPT !.fuel = @ - 1], ref.v)
   ELSE   IF st.im[ref.v] # 0 /\ ~(viaIface /\ BUG_IfaceNoMemo)
          THEN [st EXCEPT !.ret = st.im[ref.v]]
          ELSE CopyIMapInto([st EXCEPT !.fuel = @ - 1], ref.v)
 
-SlotSeq == <<"p", "s1", "s2", "a", "m", "mi", "i">>
+SlotSeq == <<"p", "s1", "s2", "a", "m", "mi", "mm", "i">>
 
 CopyNodeSlots(st, inst, n, k) ==
   IF k > Len(SlotSeq) \/ st.fuel = 0 THEN [st EXCEPT !.ret = inst]
@@ -96,6 +103,17 @@ CopyMapInto(st, k) ==
              ELSE [sw EXCEPT !.edges = @ \cup {[fk |-> "map", f |-> inst, slot |-> "w", t |-> sw.ret, tk |-> "node"]}]
   IN [sw2 EXCEPT !.ret = inst, !.mm[k] = IF BUG_MapMemoLate /\ @ = 0 THEN inst ELSE @]
 
+CopyMMapInto(st, k) ==
+  LET inst == Len(st.xorig) + 1
+      st1 == [st EXCEPT !.xorig = Append(@, k), !.xm[k] = inst]
+      sa == CopyRef(st1, mmaps[k].a, FALSE)
+      sa2 == IF mmaps[k].a.t = "nil" \/ sa.fuel = 0 THEN sa
+             ELSE [sa EXCEPT !.edges = @ \cup {[fk |-> "mmap", f |-> inst, slot |-> "a", t |-> sa.ret, tk |-> "map"]}]
+      sb == CopyRef(sa2, mmaps[k].b, FALSE)
+      sb2 == IF mmaps[k].b.t = "nil" \/ sb.fuel = 0 THEN sb
+             ELSE [sb EXCEPT !.edges = @ \cup {[fk |-> "mmap", f |-> inst, slot |-> "b", t |-> sb.ret, tk |-> "map"]}]
+  IN [sb2 EXCEPT !.ret = inst]
+
 CopyIMapInto(st, k) ==
   LET inst == Len(st.iorig) + 1
       st1 == [st EXCEPT !.iorig = Append(@, k), !.im[k] = inst]
@@ -109,6 +127,7 @@ Walk == CopyRef(St0, NodeRef(1), FALSE)      \* the root is node 1 (the defaults
 Init == /\ nodes \in {f \in [1..N -> NodeVals] : \A n \in 1..N : GoodNode(f[n])}
         /\ maps \in [1..M -> [v : NodeRefs, w : NodeRefs]]
         /\ imaps \in [1..MI -> AnyRefs]
+        /\ mmaps \in [1..MM -> [a : MapRefs, b : MapRefs]]
         /\ res = Walk
 Next == UNCHANGED vars
 Spec == Init /\ [][Next]_vars
@@ -118,7 +137,7 @@ Terminates == res.fuel > 0
 \* references held in pointer- or map-typed slots that were identical in the input are identical in the copy:
 \* every node / map reachable through such slots has exactly one instance
 TypedEdge(e) == e.slot # "i"
-OrigOf(k, i) == CASE k = "node" -> res.norig[i] [] k = "map" -> res.morig[i] [] k = "imap" -> res.iorig[i]
+OrigOf(k, i) == CASE k = "node" -> res.norig[i] [] k = "map" -> res.morig[i] [] k = "imap" -> res.iorig[i] [] k = "mmap" -> res.xorig[i]
 SharingPreserved ==
   Terminates =>
     /\ \A e1, e2 \in res.edges :
@@ -131,5 +150,5 @@ Isomorphic ==
          LET ref == nodes[res.norig[i]][s] IN
          ref.t # "nil" => \E e \in res.edges : e.fk = "node" /\ e.f = i /\ e.slot = s /\ e.tk = ref.t /\
                              OrigOf(ref.t, e.t) = ref.v
-Emit == (SampleN = 1 \/ RandomElement(1..SampleN) = 1) => PrintT(<<"CASE", ToJson([nodes |-> nodes, maps |-> maps, imaps |-> imaps])>>)
+Emit == (SampleN = 1 \/ RandomElement(1..SampleN) = 1) => PrintT(<<"CASE", ToJson([nodes |-> nodes, maps |-> maps, imaps |-> imaps, mmaps |-> mmaps])>>)
 =============================================================================
